@@ -227,19 +227,38 @@ class Flow:
         return out
 
     # ------------------------------------------------------------------
-    def slice_operand(self, o, stop=None, mut_ok=None, through_all_calls=True):
+    def slice_operand(self, o, stop=None, mut_ok=None, through_all_calls=True, stop_locals=()):
         s = Slice()
+        self._stop_locals = set(stop_locals)
         self._visit_operand(o, (), s, stop, mut_ok, through_all_calls)
         return s
 
-    def slice_place(self, place, stop=None, mut_ok=None, through_all_calls=True):
+    def slice_place(self, place, stop=None, mut_ok=None, through_all_calls=True, stop_locals=()):
         s = Slice()
+        self._stop_locals = set(stop_locals)
         self._visit(place["l"], pproj(place), s, stop, mut_ok, through_all_calls)
         return s
 
-    def slice_local(self, l, proj=(), stop=None, mut_ok=None, through_all_calls=True):
+    def slice_local(self, l, proj=(), stop=None, mut_ok=None, through_all_calls=True, stop_locals=()):
         s = Slice()
+        self._stop_locals = set(stop_locals)
         self._visit(l, tuple(proj), s, stop, mut_ok, through_all_calls)
+        return s
+
+    def slice_def(self, d, stop=None, mut_ok=None, stop_locals=()):
+        """sources of one definition (an entry of self.defs[l])"""
+        s = Slice()
+        self._stop_locals = set(stop_locals)
+        if d[0] == "assign":
+            self._visit_rvalue(d[4], (), s, stop, mut_ok, True)
+        elif d[0] == "call":
+            self._visit_call(d[1], d[4], (), s, stop, mut_ok, True)
+        elif d[0] == "mutcall":
+            t = d[4]
+            s.calls[d[1]] = t
+            for ai, a in enumerate(t["args"]):
+                if ai != d[2]:
+                    self._visit_operand(a, (), s, stop, mut_ok, True)
         return s
 
     def _visit_operand(self, o, rest, s, stop, mut_ok, tac):
@@ -260,6 +279,9 @@ class Flow:
             raise RuntimeError("slice too large in %s" % self.body["path"])
         s.visited.add(key)
         s.locals.add(l)
+        if l in getattr(self, "_stop_locals", ()):
+            s.roots.add(("local", l, proj))
+            return
         # parameters / captured variables
         if 1 <= l <= self.argc:
             if self.is_closure and l == 1:
